@@ -26,7 +26,8 @@ impl Minimizer {
     pub fn new(v: &Violation, budget: usize) -> Self {
         Minimizer {
             started: std::time::Instant::now(),
-            wall_cap_s: 240,
+            // candidates that hang cost whole watchdog periods
+            wall_cap_s: if v.actual.class == "noreturn" { 90 } else { 240 },
             refs: RefTable::default(),
             evals: 0,
             budget,
